@@ -91,6 +91,51 @@ def check_catalogue(chk, zero_table):
             if nrows != want:
                 chk.violation(dict(sig, clause='rows'), '%s: %d data rows, the definition gives %d' % (what, nrows, want),
                               {'kind': 'zero', 'name': e['name'], 'na': na, 'nb': nb})
+    # exact contents where a header-only input still yields data rows: the rows are entirely made of the other
+    # input's cells and of the fill value, for every fill value (None, and non-default ones incl. falsy / string ones)
+    A0, B0 = catalogue.atable(0), catalogue.btable(0)
+    bt = catalogue.btable(3)
+    bt[1][0] = None
+    at = catalogue.atable(2)
+    brows = [tuple(r) for r in bt[1:]]
+    arows = [tuple(r) for r in at[1:]]
+    exact = []
+    for m in (None, 'NA', 0, False, u'', (None,)):
+        kw = {} if m is None else {'missing': m}
+        fa, fb = (m,) * len(catalogue.AH), (m,) * len(catalogue.BH)
+        exact += [
+            ('addcolumn(%r)' % (kw,), lambda kw=kw: etl.addcolumn(A0, 'z', [1, 2, 3], **kw), [fa + (v,) for v in (1, 2, 3)]),
+            ('addcolumn(index=0, %r)' % (kw,), lambda kw=kw: etl.addcolumn(A0, 'z', [1, 2], index=0, **kw), [(v,) + fa for v in (1, 2)]),
+            ('annex(header-only, b, %r)' % (kw,), lambda kw=kw: etl.annex(A0, bt, **kw), [fa + r for r in brows]),
+            ('annex(a, header-only, %r)' % (kw,), lambda kw=kw: etl.annex(at, B0, **kw), [r + fb for r in arows]),
+            ('cat(header-only, b, %r)' % (kw,), lambda kw=kw: etl.cat(A0, bt, **kw), [(r[0], m, m, m, r[1]) for r in brows]),
+            ('stack(header-only, b, %r)' % (kw,), lambda kw=kw: etl.stack(A0, bt, **kw), [r + (m, m) for r in brows]),
+            ('rightjoin(header-only, b, %r)' % (kw,), lambda kw=kw: etl.rightjoin(A0, bt, key='k', **kw),
+             [(r[0], m, m, m, r[1]) for r in sorted(brows, key=lambda r: (r[0] is not None, r[0] or 0))]),
+            ('outerjoin(a, header-only, %r)' % (kw,), lambda kw=kw: etl.outerjoin(at, B0, key='k', **kw),
+             [r + (m,) for r in sorted(arows, key=lambda r: r[0])]),
+            ('leftjoin(a, header-only, %r)' % (kw,), lambda kw=kw: etl.leftjoin(at, B0, key='k', **kw),
+             [r + (m,) for r in sorted(arows, key=lambda r: r[0])]),
+            ('hashrightjoin(header-only, b, %r)' % (kw,), lambda kw=kw: etl.hashrightjoin(A0, bt, key='k', **kw),
+             [(r[0], m, m, m, r[1]) for r in brows]),
+            ('hashleftjoin(a, header-only, %r)' % (kw,), lambda kw=kw: etl.hashleftjoin(at, B0, key='k', **kw), [r + (m,) for r in arows]),
+            ('unflatten(%r)' % (kw,), lambda kw=kw: etl.unflatten([1, 2, 3], 2, **kw), [(1, 2), (3, m)]),
+        ]
+    for name, fn, want in exact:
+        chk.count(('exact', name))
+        chk.replayed += 1
+        sig = {'op': name.split('(')[0], 'kind': 'header-only', 'clause': 'contents'}
+        try:
+            got1 = [tuple(r) for r in fn()][1:]
+            v = fn()
+            got2 = [tuple(r) for r in v][1:]
+            got3 = [tuple(r) for r in v][1:]
+        except Exception as ex:
+            chk.violation(dict(sig, clause='raises'), '%s raised %r' % (name, ex), {'kind': 'exact', 'name': name})
+            continue
+        if not (repr(got1) == repr(want) == repr(got2) == repr(got3)):
+            chk.violation(sig, '%s delivered data rows %r (second pass %r), the definition gives %r' % (name, got1, got3, want),
+                          {'kind': 'exact', 'name': name})
     # scalar accessors / utilities on a header-only table
     t0 = catalogue.atable(0)
     scalars = [('nrows', lambda: etl.nrows(t0), 0), ('header', lambda: tuple(etl.header(t0)), catalogue.AH),
